@@ -242,6 +242,16 @@ func histBody(cfgs []histCfg, crashBound int) lib.Body {
 			if !w.checkAll("after clean shutdown + restart") {
 				return
 			}
+			// and the reopened database keeps working: one more row into every table must land at the end
+			// (a stale root pointer still scans right through the sibling links, but inserts go astray)
+			for _, tn := range append([]string{}, w.model.Order...) {
+				if !w.do(mkInsert(w.model, tn, 1, false)) {
+					return
+				}
+			}
+			if !w.checkAll("after clean shutdown + restart + one more row per table") {
+				return
+			}
 		}
 		if cfg.FinalCrash && c.Fresh() {
 			c.Logf("CRASH (end of history)")
